@@ -146,7 +146,9 @@ Definition paccept (st : pss) (o : pop) (r : pout) : pss + N :=
 (* clause 0: the address is released (not allocated, on the free list); clause 3: the MAC and IP
    indexes no longer answer for the session; clause 4: exactly one terminate event (the trigger of
    Accounting-Stop) was emitted for it; clause 5: an operation that ends a session which is gone has
-   no effect, and an address is released once. *)
+   no effect, and an address is released once; and a termination attempt that FAILS on a live session
+   must leave it endable: a following attempt with a live context and a working allocator that still
+   reports failure while the session stays in the table means the session is stuck (nothing can end it). *)
 
 Record sss := { z_snap : ssnap; z_term : list N }.
 Definition sss_init (c : scfg) : sss := {| z_snap := ssnap_of c (sinit c); z_term := [] |}.
@@ -158,7 +160,11 @@ Definition saccept (st : sss) (o : sop) (r : sout) : sss + N :=
   let next := inl {| z_snap := sn; z_term := terms |} in
   let ended : option (list N) :=
     match o with
-    | STerminate n | SRace n _ => if ahas n (zn_sess prev) then Some [n] else None
+    | STerminate n _ _ =>
+        if ahas n (zn_sess prev)
+        then (if (so_err r =? 0) || negb (ahas n (zn_sess sn)) then Some [n] else Some [])   (* a failed attempt that left the session ends nothing *)
+        else None
+    | SRace n _ => if ahas n (zn_sess prev) then Some [n] else None
     | STick _ => Some (map fst (filter (fun p => snd (snd p)) (zn_sess prev)))
     | SStop => Some (map fst (zn_sess prev))
     | _ => Some []
@@ -173,6 +179,12 @@ Definition saccept (st : sss) (o : sop) (r : sout) : sss + N :=
         else None
     | None => None
     end in
+  let stuck := match o with
+               | STerminate n ctx relfail =>
+                   ahas n (zn_sess prev) && negb (so_err r =? 0) && ahas n (zn_sess sn) && (ctx =? 0) && negb relfail
+               | _ => false
+               end in
+  if stuck then inr 5 else
   match ended with
   | None => if ssnap_eqb sn prev && match so_ev r with [] => true | _ => false end then next else inr 5
   | Some l => match first_some check1 l with Some c => inr c | None => next end
